@@ -5,7 +5,7 @@
 # virtual clock: running flags, clock indications per L1 clock port, generator
 # state, survival of hopping/queued bursts across POWEROFF, and the port plan.
 
-from vf import common, radio, sim
+from vf import common, radio, sched, sim
 from vf.ref import trxd, trxc
 
 SHARDS = {"quick": 1, "thorough": 16}
@@ -300,11 +300,147 @@ def _run(ctx, r, idx, aw, bench, w):
 	ctx.count("config_size_%d" % n)
 
 
+# ---- a power command served while the clock thread distributes an indication ----------------------------
+
+def all_functions(cls):
+	import types
+	# (not __del__: a finaliser runs wherever the garbage collector happens to, also inside the harness's own critical sections)
+	return [k for k, v in vars(cls).items() if isinstance(v, types.FunctionType) and k != "__del__"]
+
+
+def make_sched(gran):
+	sc = sched.Sched(gran)
+	for cls in (sim.clck_gen.CLCKGen, sim.transceiver.Transceiver, sim.fake_trx.FakeTRX, sim.fake_trx.Application,
+			sim.udp_link.UDPLink):
+		for name in all_functions(cls):
+			sc.watch(cls, name)
+	sc.watch(sim.transceiver.CTRLInterfaceTRX, "parse_cmd")
+	return sc
+
+
+def race_case(sc, nparents, target, command, start, switches):
+	""" nparents clock-owning transceivers are running (all but `target` when the command is POWERON); the socket
+	    thread serves `command` for `target` while the clock thread runs CLCKGen.send_clck_ind() for an indication
+	    frame.  Every transceiver that runs before and after must get that indication exactly once. """
+	import _thread
+	argv = ["-b", "127.0.0.1"]
+	for k in range(nparents - 2):
+		argv += ["--trx", "127.0.0.1:%d" % (7700 + 1000 * k)]
+	aw = sim.AppWorld(argv, seed = 1)
+	try:
+		owners = [nd for nd in aw.nodes if nd.l1_clck is not None]
+		if len(owners) != nparents:
+			raise common.HarnessError("expected %d clock-owning transceivers, the application built %d" % (nparents, len(owners)))
+		for nd in aw.nodes:
+			for k, v in list(vars(nd.trx).items()):
+				if isinstance(v, (_thread.LockType, _thread.RLock)):
+					setattr(nd.trx, k, sched.BatonLock(sc))
+		for i, nd in enumerate(owners):
+			nd.ctrl("RXTUNE %d" % (890000 + 200 * i))
+			nd.ctrl("TXTUNE %d" % (935000 + 200 * i))
+			if not (command == "POWERON" and i == target):
+				if nd.ctrl("POWERON") != 0:
+					return "POWERON refused while setting up", None
+		gen = aw.gen
+		period = gen.ind_period
+		fn = 7 * period
+		gen.clck_src = fn
+		for nd in owners:
+			nd.rx_clck()
+		x = owners[target]
+		x.l1_ctrl.sendto(("CMD %s\0" % command).encode(), x.ctrl_port)
+		info = sc.run(lambda: x.trx.ctrl_if.handle_rx(), lambda: gen.send_clck_ind(), start, switches, timeout = 60.0)
+		if info["hung"]:
+			return "deadlock", info
+		for i, e in enumerate(info["errors"]):
+			if e is not None:
+				return "%s thread raised %s: %s" % (("socket", "clock")[i], type(e).__name__, e), info
+		rsp = [d for d, _ in x.l1_ctrl.take_all()]
+		if len(rsp) != 1 or not rsp[0].startswith(("RSP %s 0" % command).encode()):
+			return "%s answered %r" % (command, rsp), info
+		want = ("IND CLOCK %d\0" % fn).encode()
+		for i, nd in enumerate(owners):
+			got = nd.rx_clck()
+			if i == target:
+				if got not in ([], [want]):
+					return "the transceiver being switched received %r" % got, info
+				continue
+			if got != [want]:
+				return ("transceiver %d of %d, running before and after the command, received %d clock indications for frame %d "
+					"(expected exactly one) while %s was served for transceiver %d" % (i, nparents, len(got), fn, command, target)), info
+		# afterwards (sequentially) the next indication reaches exactly the running ones
+		gen.clck_src = fn + period
+		gen.send_clck_ind()
+		for i, nd in enumerate(owners):
+			got = nd.rx_clck()
+			runs = (command == "POWERON") if i == target else True
+			if (len(got) == 1) != runs or len(got) > 1:
+				return "after the race: transceiver %d (%s) received %d indications for the next period" % (
+					i, "running" if runs else "off", len(got)), info
+		return None, info
+	finally:
+		aw.shutdown()
+
+
+def racing_power(ctx, r, gran):
+	sc = make_sched(gran)
+	sc.install()
+	distinct = set()
+	try:
+		cfgs = [(n, t, c) for n in (2, 3, 4) for t in range(n) for c in ("POWEROFF", "POWERON")]
+		r.shuffle(cfgs)
+		if ctx.tier == "quick":
+			pick = []
+			for c in ("POWEROFF", "POWERON"):
+				pick += [x for x in cfgs if x[2] == c and x[1] == 0][:1] + [x for x in cfgs if x[2] == c and x[1] > 0][:2]
+			cfgs = pick
+		for cfg in cfgs:
+			err, info = race_case(sc, cfg[0], cfg[1], cfg[2], 0, [])
+			if err:
+				ctx.violation("racing-power", {"config": cfg, "switches": [], "granularity": gran}, what = err)
+				return
+			n = info["points"]
+			ctx.count("race_decision_points:" + gran, n)
+			if n < 5:
+				ctx.inconclusive_because("scheduler saw only %d decision points" % n)
+				return
+			plans = [(st, [p1]) for st in (0, 1) for p1 in range(1, n + 2)]
+			for _ in range(ctx.scale(30, 800)):
+				plans.append((r.randrange(2), sorted(r.sample(range(1, n + 3), r.choice((2, 2, 3, 4))))))
+			for (st, sw) in plans:
+				err, info = race_case(sc, cfg[0], cfg[1], cfg[2], st, sw)
+				if err == "deadlock":
+					err, info = race_case(sc, cfg[0], cfg[1], cfg[2], st, sw)
+				if err == "deadlock":
+					# a wall-clock watchdog fired twice: not a verdict on the property
+					ctx.inconclusive_because("controlled run hung twice (schedule %r of %r)" % ((st, sw), cfg))
+					return
+				ctx.count("race_schedules_run")
+				key = (gran, cfg, st, tuple(info["trace"]) if info else None)
+				distinct.add(key)
+				ctx.seen(hash(key))
+				if err:
+					ctx.violation("racing-power", {"clock_owning_transceivers": cfg[0], "command": cfg[2], "target": cfg[1],
+						"granularity": gran, "start_thread": ("socket", "clock")[st], "switches": sw,
+						"executed_switches": info["trace"] if info else None},
+						what = "%s served while the clock thread distributes an indication: %s" % (cfg[2], err),
+						mechanism = "clock-links-changed-while-distributing" if "running before and after" in err else None)
+					return
+				if ctx.time_left() < 0:
+					return
+	finally:
+		sc.uninstall()
+		ctx.count("race_distinct_schedules", len(distinct))
+
+
 def run(ctx):
 	ctx.rule = ("random application configurations (BTS/MS base ports, bind address, 0..4 --trx definitions with and without /idx, named) "
 		"instantiated as the real fake_trx.Application; 20-45 commands (POWERON/POWEROFF/RXTUNE/TXTUNE/SETFH to any transceiver, incl. "
 		"untuned, double POWERON, child POWEROFF while the parent runs) and queued bursts, with 1..250 clock ticks released in between; "
-		"distinct = distinct (configuration, step); all non-trivial")
+		"a POWERON/POWEROFF served by the socket thread while the clock thread distributes a clock indication among 2-4 clock-owning "
+		"transceivers, under the baton scheduler (line granularity and CPython switch points; every single preemption point, random "
+		"multi-switch plans): transceivers running before and after get the indication exactly once; "
+		"distinct = distinct (configuration, step) and executed switch traces; all non-trivial")
 	ctx.assume("sys.argv, sockets (vnet), logging initialisation and the clock generator's time source are replaced from outside")
 	r = ctx.rng("c12")
 	for i in range(ctx.scale(800, 30000)):
@@ -312,7 +448,11 @@ def run(ctx):
 		if ctx.too_many() or ctx.time_left() < 0:
 			break
 	ctx.current_case = None
+	import os
+	for gran in os.environ.get("VERIF_GRAN", "line,switch").split(","):
+		racing_power(ctx, r, gran)
 	sim.restore_time()
+	ctx.require("race_schedules_run", 200)
 	ctx.require("configurations", 50)
 	ctx.require("invariant_checks", 2000)
 	ctx.require("clock_indications_expected", 200)
